@@ -183,6 +183,10 @@ class PerformanceTable:
     ZERO_ROCD_TOL: ClassVar[float] = 1.0e-6
     """Tolerance for zero rate of climb/descent comparisons."""
 
+    FL_SNAP_RTOL: ClassVar[float] = 1.0e-7
+    """Relative tolerance for identifying an altitude with a tabulated
+    flight level."""
+
     def __post_init__(self):
         # Check that we have the right number of mass values: three for the
         # whole table and the same for the climb and cruise sub-tables, but one
@@ -279,6 +283,13 @@ class PerformanceTable:
         corresponding to the given rate of climb/descent filter."""
 
         fl = state.altitude * METERS_TO_FL
+        # An altitude that is a tabulated flight level up to unit-conversion
+        # round-off (FL_TO_METERS * METERS_TO_FL differs from 1 by 3e-8) is
+        # that flight level: without this, the top level given in meters is
+        # rejected as out of bounds and other levels are slightly off.
+        nearest = min(self.fl, key=lambda v: abs(v - fl))
+        if abs(nearest - fl) <= self.FL_SNAP_RTOL * max(1.0, abs(nearest)):
+            fl = nearest
         mass = state.aircraft_mass
         if mass == 'min':
             mass = min(self.mass)
